@@ -20,6 +20,10 @@ CLAIMED = {
  'C14': ('proptest-generated sections over the path grammar x tagged option sets with unique label tokens; header rows identified by tag; count/order/containment oracle',
          'Exploration: the rows painted with file-style must be exactly one per section, in order, naming the path(s), the configured event label, mode change and binary-ness; the rows painted with hunk-header-style exactly one per hunk with something to show, carrying git\'s code fragment, the path and the new-file start when requested.',
          'Trusted: terminal model and tag attribution; containment (not equality) of paths/labels; git-quoted paths not generated.', '3/C14'),
+
+ 'C02': ('proptest-generated git streams (plain or coloured by an independent colouriser) x option sets containing color-only; line-count equality + per-line visible-text equality via terminal model',
+         'Exploration: for every generated stream and option set with color-only, the number of output lines equals the number of input lines; unless an option that the mode presets is explicitly set, the visible text of every output line equals that of the corresponding input line.',
+         'Trusted: terminal model; syntactic override rule (errs towards count-only); lines kept below max-line-length.', '3/C02'),
 }
 hook_commits = subprocess.check_output(['git','-C','/repo','log','--format=%H','--grep','^verif hook:'],text=True).split()
 checks = []
